@@ -50,6 +50,9 @@ theorem facts_shutdown_skeleton :
   deadline `p.timeout` of `handleLoop` and of the MITM loop, configured by the application), and `handle`
   sets none between the close decision and the response write — so the model has no move of the proxy
   that abandons a write (`response_write_ends_only_complete`; `writeErr` is the environment's);
+* the only socket options the proxy sets are the keep-alive ones on accepted connections: nothing (linger)
+  changes what the handler's `conn.Close()` does to response bytes still in flight, so `closeConn` after
+  `writeEnd` leaves the completely written response deliverable;
 * the shutdown signal is consulted exactly three times through `Closing()` (`Serve`, `handleLoop`, the close
   decision), received from twice (`Closing` itself, `readRequest`), closed once (`Close`) and handed on
   once, to the HTTP/2 session (`h2Stop` depends on `closing`; `tunnel`, `mitmPeek`, `mitmHandshake` have no
@@ -58,6 +61,7 @@ theorem facts_shutdown_skeleton :
   write, flush — in this order; `handleLoop` leaves after `handle` on a closeable error or a hijacked session. -/
 theorem facts_shutdown_round3 :
     Generated.Shutdown.deadlineKinds = ["SetDeadline"] ∧
+    Generated.Shutdown.sockoptKinds = ["SetKeepAlive", "SetKeepAlivePeriod"] ∧
     Generated.Shutdown.closingUses = ["Closing", "Closing", "Closing", "arg:Proxy", "close", "recv", "recv"] ∧
     Generated.Shutdown.handleOrder =
       ["readRequest", "handleConnectRequest", "ModifyRequest", "Hijacked", "roundTrip", "ModifyResponse",
